@@ -8,8 +8,10 @@
                        (read from the package variable), "lev" (align.Levenshtein restricted to alpha)
      then              [op |-> "levtable", es]                   all entries of align.Levenshtein
                        [op |-> "global" | "local", m, a, b, steps, ai, bi, score, frac, panic,
-                               a_after, b_after, m_same, sw_score, sw_panic]
-                       m = line of the table event; sw_* = the same call with a and b swapped.
+                               a_after, b_after, m_same, sw_score, sw_panic, wit, big]
+                       m = line of the table event; sw_* = the same call with a and b swapped;
+                       wit = an alignment of a with b written down by the driver (<<>>: none), big = the
+                       table is too large for Opt per event: judged by the witness and C08's rule.
    Mode selects the property.  Events are independent: one rejected event = one entry of bad. *)
 EXTENDS Align, Json
 
@@ -52,12 +54,23 @@ C08R(e, T) ==
   ELSE IF NoPositive(e.a, e.b, T.m) THEN "steps-returned-although-no-positive-alignment-exists"
   ELSE "ok"
 
+(* a witness: any valid alignment is a lower bound of the optimum *)
+WitR(e, T) ==
+  IF e.wit = <<>> THEN "ok"
+  ELSE IF e.op # "global" \/ ~ValidGlobal(e.wit, e.a, e.b) THEN "CERT-witness-is-not-an-alignment-of-a-with-b"
+  ELSE IF e.score < Score(e.wit, e.a, e.b, T.m) THEN
+       "score-below-an-existing-alignment=" \o ToString(Score(e.wit, e.a, e.b, T.m))
+  ELSE "ok"
+BigR(e, T) == IF e.panic THEN "panic" ELSE IF WitR(e, T) # "ok" THEN WitR(e, T) ELSE C08R(e, T)
+
 (* C09 *)
 OptOf(e, T) == IF e.op = "global" THEN Opt(e.a, e.b, T.m) ELSE LocalOpt(e.a, e.b, T.m)
 
 C09R(e, T) ==
   IF T.open # 0 THEN "out-of-domain"
+  ELSE IF e.big THEN BigR(e, T)
   ELSE IF e.panic \/ e.sw_panic THEN "panic"
+  ELSE IF WitR(e, T) # "ok" THEN WitR(e, T)
   ELSE IF e.frac THEN "score-not-integral"
   ELSE IF e.score # OptOf(e, T) THEN
        (IF e.score < OptOf(e, T) THEN "score-below-optimum=" ELSE "score-above-optimum=") \o ToString(OptOf(e, T))
@@ -84,6 +97,7 @@ SingleOf(e, T) == IF e.op = "global" THEN SingleGlobalScore(e.a, e.b, T.m) ELSE 
 
 C10R(e, T) ==
   IF T.open = 0 THEN "out-of-domain"
+  ELSE IF e.big THEN BigR(e, T)
   ELSE IF e.panic THEN "panic"
   ELSE IF e.frac THEN "score-not-integral"
   ELSE LET opt == OptOf(e, T) IN
